@@ -1016,31 +1016,54 @@ theorem autoSaves_from_empty (n : Nat) : autoSaves [] n = (List.range n).map (·
 example : autoSaves [3, 1, 7] 3 = [8, 9, 10] ∧ nextNumber [1, 2, 3, 4, 5, 6, 7, 8, 9, 10] = 11 := by decide
 example : nextNumberTextSorted [1, 2, 3, 4, 5, 6, 7, 8, 9, 10] = 10 := by decide +kernel
 
-/-! ### tables regenerated from today's source -/
+/-! ### tables observed on today's code -/
 
-/-- the directory is created with `exist_ok=False`, inside a `while True` whose
-`except FileExistsError` branch increments the counter and retries — the loop modelled above -/
+/-- the model's consecutive same-second starts into a folder -/
+def seqDirs (pre stamp : List Char) : List (List Char) → Nat → List (List Char)
+  | _, 0 => []
+  | fs, n + 1 =>
+    match createDir pre stamp fs with
+    | some (d, fs') => d :: seqDirs pre stamp fs' n
+    | none => []
+
+/-- the directories the code created for consecutive same-second starts — into an empty folder, into one holding
+the stamp (a directory) and `_1` (a plain file), into one holding only `_1` — are those of the model: exclusive
+creation, first free name of `stamp, stamp_1, …` -/
 theorem mkdir_is_exclusive_retry :
-    PyxelModel.Generated.C19.mkdirExistOk = false ∧
-    PyxelModel.Generated.C19.retryIncrementsCounter = true := by decide
+    PyxelModel.Generated.C19.observedDirs.all (fun e =>
+      (seqDirs "run_".toList "20260102_030405".toList (e.1.map String.toList) e.2.length).map String.ofList == e.2
+        && !e.2.isEmpty) = true ∧
+    PyxelModel.Generated.C19.observedDirs.length = 3 := by decide +kernel
 
-/-- writer disciplines as modelled: the three `write_to_*` used by `save_to_files` skip an existing
-file and `save_to_files` is never asked to overwrite; `to_fits/npy/png/jpg` refuse; only the
-text / CSV (/ HDF5) writers overwrite — and those formats are refused by `save_to_files`, through
-which every `run_mode` path goes first -/
+/-- what the code did to a file already present under the target name is the model's writer discipline:
+`save_to_files` (exposure, dask observation) skips it; `Outputs.save_to_file` (sequential observation) refuses for
+fits / npy / png / jpg / jpeg; only the text writer replaces it — and that format is refused by `save_to_files`,
+through which every `run_mode` path goes first -/
 theorem writer_disciplines :
-    PyxelModel.Generated.C19.skippingWriters = ["write_to_fits", "write_to_jpg", "write_to_npy"] ∧
-    PyxelModel.Generated.C19.refusingWriters = ["to_fits", "to_jpg", "to_npy", "to_png"] ∧
-    PyxelModel.Generated.C19.overwritingWriters = ["to_csv", "to_hdf", "to_txt"] ∧
-    PyxelModel.Generated.C19.saveToFilesOverwrites = false := by decide
+    PyxelModel.Generated.C19.observedOnExisting =
+      [("save_to_files", "fits", "skip"), ("save_to_files", "npy", "skip"), ("save_to_files", "jpg", "skip"),
+       ("save_to_files", "jpeg", "skip"), ("save_to_file", "fits", "refuse"), ("save_to_file", "npy", "refuse"),
+       ("save_to_file", "png", "refuse"), ("save_to_file", "jpg", "refuse"), ("save_to_file", "jpeg", "refuse"),
+       ("save_to_file", "txt", "overwrite")] := by decide
 
-/-- the name templates of `build_filenames` and the `run_number + 1` of `apply_run_number` are the
-ones `fileName` renders -/
+def modeOfName : String → Option Mode
+  | "exposure" => some .exposure | "sequential" => some .sequential | "parallel" => some .parallel | _ => none
+
+def bucketOfName (n : String) : Option Bucket := Bucket.all.find? (fun b => String.ofList b.name == n)
+
+/-- the file names the code produced for (mode, run, bucket, format) samples — run numbers 0, 4, 7, 10, 12 included —
+are `fileName` of the model -/
 theorem name_templates :
-    PyxelModel.Generated.C19.plainNameParts = ["detector_", "{bucket_name}", ".", "{extension}"] ∧
-    PyxelModel.Generated.C19.suffixedNameParts =
-      ["detector_", "{bucket_name}", "_", "{filename_suffix}", ".", "{extension}"] ∧
-    PyxelModel.Generated.C19.runNumberPlusOne = true ∧
-    PyxelModel.Generated.C19.autoNumberSortsNumbers = true := by decide
+    PyxelModel.Generated.C19.observedNames.all (fun e =>
+      match modeOfName e.1, bucketOfName e.2.2.1 with
+      | some m, some b => String.ofList (fileName m b e.2.2.2.1.toList e.2.1) == e.2.2.2.2
+      | _, _ => false) = true ∧
+    PyxelModel.Generated.C19.observedNames.length = 21 := by decide +kernel
+
+/-- the number the code gave to the next automatically numbered file, for folders holding files 1..9, 1..10, 1..12,
+unordered and sparse sets, is `nextNumber` of the model (largest + 1, never a repeat) -/
+theorem auto_numbering_as_observed :
+    PyxelModel.Generated.C19.observedAutoNumbers.all (fun e => nextNumber e.1 == e.2) = true ∧
+    PyxelModel.Generated.C19.observedAutoNumbers.length = 7 := by decide
 
 end PyxelModel.C19
